@@ -116,3 +116,19 @@ Definition run_and_recover (t0 : Z) (aoft : N) (acts : list action) (wall dbnow 
   let '(s, tr) := run (init_db t0 aoft) acts in
   let recs := records_of tr in
   (s, recs, recover_at aoft recs wall dbnow).
+
+(* ------------------------------------------------------------------ two restarts on one data directory:
+   run 1 (acts1) on a fresh leader -> stop -> restart at (wall1, dbnow1) -> run 2 (acts2) on the restarted leader ->
+   stop -> second restart at (wall2, dbnow2).  The log is append-only across the restart: the records of run 2 follow
+   the records of run 1 (LoadAndInit reads them, nothing is rewritten; compaction = identity, property C16).
+   The holds restored by the first restart keep the replayed command (Flag has LOCK_FLAG_FROM_AOF): whether their
+   release in run 2 is written to the log is decided by LockManager.PushUnLockAof on the UNLOCK command's flag
+   (Engine/Timers.push_unlock_aof), not on the hold's. *)
+Definition two_restarts (t0 : Z) (aoft : N) (acts1 : list action) (wall1 dbnow1 : Z) (acts2 : list action) (wall2 dbnow2 : Z)
+  : db * db * db * list aofrec * db :=
+  let '(s, tr1) := run (init_db t0 aoft) acts1 in
+  let recs1 := records_of tr1 in
+  let s1 := recover_at aoft recs1 wall1 dbnow1 in
+  let '(s2, tr2) := run s1 acts2 in
+  let recs2 := recs1 ++ records_of tr2 in
+  (s, s1, s2, recs2, recover_at aoft recs2 wall2 dbnow2).
